@@ -16,6 +16,9 @@ checks={
  "C18":dict(text=LVL+"every sequence of <=3 (quick) / <=4 (thorough) Set operations over the value domain {0,1,2}, ordered and unordered, compared with a reference set after every step; Equal against four kinds of second set",
             note="the value domain and operation selectors are case-split, so the solver's share is path feasibility only (stated in DESIGN); JSON outside; synchronized-set concurrency is covered by C13; trusted: go/ssa, fsx interpreter and its channel/goroutine model (unordered iteration runs through a goroutine)",
             ref="§5 C18", tech="SSA symbolic execution, exhaustive case-split of selectors within bounds"),
+ "C12":dict(text=LVL+"every tree of error combinators within the bounds is built from selectors and the result is checked against the leaf multiset computed alongside: nil-ness, identity of a single plain error, errors.Is for every leaf and not for an unrelated sentinel, errors.As, Unwind multiset and most-recent-first order; Collector sequentially and under the scheduler",
+            note="depth <=2, <=4 (quick) / <=5 (thorough) leaves; errors.Is/As are stubs implementing the documented algorithm over interpreted Is/As/Unwrap methods; fmt.Errorf stub builds the real *fmt.wrapError; the solver's share is small (typed-leaf payload equality, path feasibility)",
+            ref="§5 C12", tech="SSA symbolic execution, case-split of tree selectors, SMT for payload equality"),
 }
 NA={}
 m={"version":1,
